@@ -130,6 +130,24 @@ def streams(rng, tier):
         wide.append(_table_case(names, rng))
     out.append(("wide", wide))
 
+    # planted histories: a rename through a live view IMMEDIATELY followed by a use of the new accessor in every way
+    # (attribute read, row attribute, item assignment, plain and position-validated replacement), with and without
+    # dir() / repr() in between - the map must be rebuilt on first use, whichever use comes first
+    planted = []
+    uses = [["getattr"], ["row"], ["setitem"], ["replace"]]
+    for names0 in ([S("first name"), S("age")], [S("a"), S("a"), S("b")], [S("x"), NONE, S("y")]):
+        w = len(names0)
+        for j in range(w):
+            for new in (S("Given Name"), S("a"), S("copy")):
+                for first in uses + [["replace_idx"]]:
+                    for between in ([], [["dir"]], [["repr"]]):
+                        ops = [["view", j, new]] + between
+                        ops.append(["replace", ["accidx", j]] if first[0] == "replace_idx" else [first[0], ["acc", j]])
+                        for u in uses:
+                            ops.append([u[0], ["acc", j]])
+                        ops.append(["getattr", ["acc", (j + 1) % w]])
+                        planted.append({"op": "hist", "names": list(names0), "ops": ops})
+    out.append(("planted", planted if not quick else rng.sample(planted, min(len(planted), 200))))
     out.append(("history", [_history(rng) for _ in range(700 if quick else 6000)]))
     return out
 
@@ -143,7 +161,9 @@ def _history(rng):
     for _ in range(rng.randint(2, 9)):
         k = rng.random()
         w = len(cur)
-        probe = ["acc", rng.randrange(w)] if rng.random() < 0.8 else ["lit", rng.choice(PROBES + ["z", "a", "b"])]
+        r_ = rng.random()
+        probe = (["acc", rng.randrange(w)] if r_ < 0.65 else ["accidx", rng.randrange(w)] if r_ < 0.8
+                 else ["lit", rng.choice(PROBES + ["z", "a", "b"])])
         if k < 0.10:
             old = rng.choice(cur) if rng.random() < 0.85 else rng.choice(pool)
             new = rng.choice(pool)
@@ -371,6 +391,13 @@ def _obs_hist(case):
                     steps.append({"skip": "no such column"})
                     continue
                 lit, st["want"] = acc[pr[1]], pr[1]
+            elif pr[0] == "accidx":
+                # the position-validated form <sanitised name>__<position> of column j (t.given_name__0 = [...])
+                if pr[1] >= len(acc):
+                    steps.append({"skip": "no such column"})
+                    continue
+                lit = re.sub(r"__\d+$", "", acc[pr[1]]) + f"__{pr[1]}"
+                st["want"] = None                # the model decides; the oracle only judges advertised accessors
             else:
                 lit = pr[1]
                 st["want"] = acc.index(lit) if acc.count(lit) == 1 else None
